@@ -43,6 +43,7 @@ func init() {
 }
 
 var restrict = wprog.Restrict{MaxOps: 7, MaxBody: 2500, SmallValues: true}
+var restrictWrite = wprog.Restrict{MaxOps: 7, MaxBody: 2500, SmallValues: true, Bulk: true, BulkOneIn: 15}
 
 func Run(e *core.Env) {
 	side := e.T.Weighted("side", 3, 2, 1)
@@ -63,11 +64,18 @@ func Run(e *core.Env) {
 		readEnum(e, img, opt, eofAtEnd, refs)
 		return
 	}
-	cfg := wprog.DrawConfig(e.T, &restrict)
+	r := &restrict
+	if side == 1 {
+		// write side: some programs write thousands of objects, so that the
+		// cross-reference data no longer fits the Writer's buffers (the sink
+		// sees a few dozen calls all the same)
+		r = &restrictWrite
+	}
+	cfg := wprog.DrawConfig(e.T, r)
 	// capture the program's sub-tape so that it can be re-executed verbatim
 	e.T.StartCapture()
 	disk := simdisk.NewDisk()
-	res := wprog.Execute(e.T, cfg, &restrict, disk.Sink(cfg.Sink))
+	res := wprog.Execute(e.T, cfg, r, disk.Sink(cfg.Sink))
 	prog := e.T.StopCapture()
 	for k, v := range res.Probes {
 		e.ProbeN(k, v)
@@ -413,7 +421,7 @@ func writeSide(e *core.Env, cfg wprog.Config, prog []uint64, refDisk *simdisk.Di
 				d.Mode = simdisk.FailShort
 				d.ShortCut = k % 7
 			}
-			res := wprog.Execute(tape.Replay(prog).NoRecord(), cfg, &restrict, d.Sink(cfg.Sink))
+			res := wprog.Execute(tape.Replay(prog).NoRecord(), cfg, &restrictWrite, d.Sink(cfg.Sink))
 			e.Steps(1)
 			if d.Fired == 0 {
 				e.Probe("fault point not reached")
